@@ -263,6 +263,16 @@ pub fn run_c14(out: &mut Out, tier: &str, seed: u64) {
         many_cases(out, &mut rng, &g, &bad, false);
         iter_cases(out, &bad, false);
     }
+    // well-formed documents that repeat member names x path sets: whatever get_many hands out is one well-formed
+    // value inside the input (F37: a repeated name ended the walk early and cut the text of an enclosing path)
+    for i in 0..ndocs / 3 {
+        let g = gen::gen_doc(&mut rng, &cfgd);
+        let g = if i % 2 == 0 { repeat_members(&g, &mut rng) } else { g };
+        let doc = gen::render_doc(&g, &mut rng, &cfgd);
+        out.count("many:repeated-names");
+        many_cases(out, &mut rng, &g, &doc, false);
+        many_cases(out, &mut rng, &g, &doc, false);
+    }
 }
 
 // ---------------------------------------------------------------- C11
@@ -286,6 +296,14 @@ fn pathset(rng: &mut Rng, g: &G) -> Vec<Vec<PathElem>> {
         set.push(p);
     }
     set
+}
+
+pub fn has_repeated_names(g: &G) -> bool {
+    match g {
+        G::Obj(ms) => ms.iter().enumerate().any(|(i, m)| ms[..i].iter().any(|n| n.0 == m.0)) || ms.iter().any(|m| has_repeated_names(&m.2)),
+        G::Arr(xs) => xs.iter().any(has_repeated_names),
+        _ => false,
+    }
 }
 
 /// shape consistency: no node of the path trie is used both with keys and with indices
@@ -337,12 +355,21 @@ pub fn many_cases(out: &mut Out, rng: &mut Rng, g: &G, doc: &[u8], wellformed: b
             }
         }
     };
-    // verdict ops: the implementation's result is an argument, the model answers "ok" or why not
-    let op = if wellformed { "manyok" } else { "manysound" };
+    // verdict ops: the implementation's result is an argument, the model answers "ok" or why not.
+    // C11 speaks about documents without repeated member names and C10's "first member wins" about get: on a
+    // document that repeats names get_many is held to what C14 and C01 state - no panic, every filled slot the
+    // span of one well-formed value inside the input (op manyfrag) - and, as a tie of the model to the code, to
+    // the search model (op manyrec below)
+    let dups = has_repeated_names(g);
+    let op = if dups { "manyfrag" } else if wellformed { "manyok" } else { "manysound" };
     out.count(op);
     let r = fmt(doc, guarded(|| sonic_rs::get_many(doc, &tree)));
     out.count(&format!("{op}:{}", if r.starts_with("ok") { "Ok" } else { "Err" }));
-    out.case(op, &[&pa, &h, &r, "get_many"], "ok", set.len() > 1);
+    // (C11's own run leaves the API-level verdict on repeated names to C14 and keeps the model tie)
+    let api = !(dups && wellformed);
+    if api {
+        out.case(op, &[&pa, &h, &r, "get_many"], "ok", set.len() > 1);
+    }
     // the search model itself (Model/ManySeen.rec2 with its counter, early exits and list of walked nodes, over the
     // tree Model/ManyBuild.build makes of the paths) must return the very slot vector, or fail where the code fails
     let keys_only = set.iter().all(|p| p.iter().all(|e| matches!(e, PathElem::Key(_))));
@@ -352,7 +379,9 @@ pub fn many_cases(out: &mut Out, rng: &mut Rng, g: &G, doc: &[u8], wellformed: b
     }
     if wellformed {
         let r = fmt(doc, guarded(|| unsafe { sonic_rs::get_many_unchecked(doc, &tree) }));
-        out.case(op, &[&pa, &h, &r, "get_many_unchecked"], "ok", set.len() > 1);
+        if api {
+            out.case(op, &[&pa, &h, &r, "get_many_unchecked"], "ok", set.len() > 1);
+        }
         if keys_only {
             out.case("manyrec", &[&pa, &h, &r, "get_many_unchecked"], "same", set.len() > 1);
         }
